@@ -7,10 +7,11 @@ Rec == ndJsonDeserialize(IOEnv.TRACE)
 VARIABLES l, rnames, bad
 tvars == <<l, rnames, bad>>
 SetOf(seq) == { seq[i] : i \in 1..Len(seq) }
+(* sk = "both": the record for the target stream next to one for ANOTHER stream (fields os, ot), which the scoping rule ignores *)
 
 GOf(rec) == SetOf(rec.g)
-SOf(rec) == IF rec.sk = "target" THEN SetOf(rec.s) ELSE {}
-TOf(rec) == IF rec.sk = "target" /\ rec.tk = "target" THEN SetOf(rec.t) ELSE {}
+SOf(rec) == IF rec.sk \in {"target", "both"} THEN SetOf(rec.s) ELSE {}
+TOf(rec) == IF rec.sk \in {"target", "both"} /\ rec.tk = "target" THEN SetOf(rec.t) ELSE {}
 
 RuleLabels(e) ==
     LET g == GOf(e.rec)  s == SOf(e.rec)  t == TOf(e.rec)
